@@ -95,6 +95,8 @@ type c21World struct {
 	pfxElems []*gpb.PathElem
 	pfxStrs  []string
 	reqs  []*gpb.SetRequest
+	// ecfgs are rendering options a program keeps in one place and hands to every EmitJSON call
+	ecfgs []*ygot.EmitJSONConfig
 	roots []ygot.GoStruct // initial private roots of writer tasks (cloned per phase)
 }
 
@@ -227,6 +229,11 @@ func buildWorld(c *c21Case) *c21World {
 			break
 		}
 	}
+	w.ecfgs = []*ygot.EmitJSONConfig{
+		{Format: ygot.RFC7951, SkipValidation: true},
+		{Format: ygot.Internal, SkipValidation: true},
+		{Format: ygot.RFC7951, SkipValidation: true, RFC7951Config: &ygot.RFC7951JSONConfig{AppendModuleName: true}},
+	}
 	w.pfxElems = make([]*gpb.PathElem, 2, 8)
 	w.pfxElems[0] = &gpb.PathElem{Name: "devices"}
 	w.pfxElems[1] = &gpb.PathElem{Name: "device", Key: map[string]string{"name": "r1"}}
@@ -247,6 +254,10 @@ func buildWorld(c *c21Case) *c21World {
 		if u, isU := tv.GetValue().(*gpb.TypedValue_UintVal); isU && u.UintVal < 1<<40 && r.Intn(3) == 0 {
 			e.tv = &gpb.TypedValue{Value: &gpb.TypedValue_IntVal{IntVal: int64(u.UintVal)}}
 			e.tol = true
+		}
+		if d, isD := e.tv.GetValue().(*gpb.TypedValue_DoubleVal); isD && r.Intn(2) == 0 {
+			// the deprecated single-precision spelling, which older targets still send
+			e.tv = &gpb.TypedValue{Value: &gpb.TypedValue_FloatVal{FloatVal: float32(d.DoubleVal)}}
 		}
 		if r.Intn(4) == 0 {
 			// a message as it comes off the wire
@@ -436,7 +447,7 @@ func factorPrefix(req *gpb.SetRequest, whole bool) {
 	}
 }
 
-var c21ReadOps = []string{"emitjson-small", "validate", "validate-leafref", "emitjson", "emitjson-rfc", "marshal7951", "construct", "tognmi", "tognmi-slice", "getnode", "getnode-wild", "diff", "diffatomic", "deepcopy", "encodetv", "evict"}
+var c21ReadOps = []string{"emitjson-small", "validate", "validate-leafref", "emitjson", "emitjson-shared", "emitjson-rfc", "marshal7951", "construct", "tognmi", "tognmi-slice", "getnode", "getnode-wild", "diff", "diffatomic", "deepcopy", "encodetv", "evict"}
 var c21WriteOps = []string{"unmarshal", "unmarshal", "unmarshal-tree", "setnode", "setnode", "setnode-json", "setnode-tol", "setreq", "setreq", "unmarshal-bad", "setnode-bad", "evict"}
 
 func (p *c21Prop) genCase(seed uint64, tier string) *c21Case {
@@ -478,6 +489,11 @@ func (p *c21Prop) genCase(seed uint64, tier string) *c21Case {
 				ops = append([]Op{}, c.Tasks[i][:at]...)
 				ops = append(ops, Op{K: "unmarshal-tree", A: map[string]string{"i": "1"}})
 				c.Tasks[i] = append(ops, c.Tasks[i][at:]...)
+				// ... and sets one and the same scalar message (a float_val, if the pool has one)
+				at = r.Intn(len(c.Tasks[i]) + 1)
+				ops = append([]Op{}, c.Tasks[i][:at]...)
+				ops = append(ops, Op{K: "setnode", A: map[string]string{"i": "0", "float": "1"}})
+				c.Tasks[i] = append(ops, c.Tasks[i][at:]...)
 			}
 		}
 	}
@@ -487,6 +503,13 @@ func (p *c21Prop) genCase(seed uint64, tier string) *c21Case {
 		// tree follow one another across tasks
 		for i := range c.Tasks {
 			if c.Workload == "readers" || (c.Workload == "mixed" && i%2 == 0) {
+				{
+					// the program-wide rendering options: one object, first used while tasks overlap
+					at := r.Intn(len(c.Tasks[i]) + 1)
+					ops := append([]Op{}, c.Tasks[i][:at]...)
+					ops = append(ops, Op{K: "emitjson-shared", A: map[string]string{"i": "0"}})
+					c.Tasks[i] = append(ops, c.Tasks[i][at:]...)
+				}
 				for _, v := range []string{"1", "0", "2"}[:2+r.Intn(2)] {
 					at := r.Intn(len(c.Tasks[i]) + 1)
 					ops := append([]Op{}, c.Tasks[i][:at]...)
@@ -549,6 +572,9 @@ func (w *c21World) runOp(op Op, root ygot.GoStruct) string {
 			}
 			s, err := ygot.EmitJSON(w.small, ecfg)
 			out = s + " " + normErr(err)
+		case "emitjson-shared":
+			s, err := ygot.EmitJSON(w.T, w.ecfgs[idx%len(w.ecfgs)])
+			out = short(canonJSON([]byte(s))) + " " + normErr(err)
 		case "emitjson-rfc":
 			cfg := &ygot.RFC7951JSONConfig{AppendModuleName: idx%2 == 0}
 			switch (idx / 2) % 4 {
@@ -676,6 +702,15 @@ func (w *c21World) runOp(op Op, root ygot.GoStruct) string {
 				return
 			}
 			e := w.tvs[pick(len(w.tvs))]
+			if op.arg("float") == "1" {
+				// the focus message: the first float_val of the pool, if there is one
+				for _, x := range w.tvs {
+					if _, ok := x.tv.GetValue().(*gpb.TypedValue_FloatVal); ok {
+						e = x
+						break
+					}
+				}
+			}
 			opts := []ytypes.SetNodeOpt{&ytypes.InitMissingElements{}}
 			if op.K == "setnode-tol" || e.tol {
 				opts = append(opts, &ytypes.TolerateJSONInconsistencies{})
